@@ -127,6 +127,16 @@ pub fn variant_name(e: &Error) -> String {
         .collect()
 }
 
+/// like `err_info` but keeps the location of validation errors (C15 examines its stability)
+pub fn err_info_raw(e: &Error) -> ErrInfo {
+    let mut i = err_info(e);
+    if let Some(l) = e.location() {
+        i.line = l.line();
+        i.col = l.column();
+    }
+    i
+}
+
 pub fn err_info(e: &Error) -> ErrInfo {
     let inner = e.without_snippet();
     let (line, col) = e
